@@ -125,6 +125,10 @@ fn cfg(ctx: &Ctx) -> crate::gen::GenCfg {
 pub fn case(ctx: &Ctx, kind: &str, params: &Value, counting: bool) -> Result<(), Fail> {
 	match kind {
 		"shaped" => check(ctx, &shaped_model(params["i"].as_u64().unwrap_or(0) as usize), "shaped", counting),
+		"fixture" => match fixture_model(&dna_param(params)) {
+			Some((_, m)) => check(ctx, &m, "fixture", counting),
+			None => Ok(()),
+		},
 		_ => check(ctx, &model_from_dna(&dna_param(params), &cfg(ctx)), "dna", counting),
 	}
 }
@@ -144,6 +148,16 @@ pub fn run(ctx: &Ctx) -> usize {
 	let cfg = cfg(ctx);
 	if run_dna(ctx, "dna", ctx.n(60_000, 3_000_000), dna_max(ctx), |dna, counting| check(ctx, &model_from_dna(dna, &cfg), "dna", counting)).is_some() {
 		violations += 1;
+	}
+	if fixture_count() > 0 {
+		if run_dna(ctx, "fixture", ctx.n(4_000, 200_000), 512, |dna, counting| match fixture_model(dna) {
+			Some((_, m)) => check(ctx, &m, "fixture", counting),
+			None => Ok(()),
+		})
+		.is_some()
+		{
+			violations += 1;
+		}
 	}
 	violations
 }
